@@ -1,20 +1,22 @@
 #!/bin/bash
 # Re-run every seeded change against the current checks; writes /verif/seeded/RESULTS.md
-out=/verif/seeded/RESULTS.md
+VERIF="$(cd "$(dirname "$0")/.." && pwd)"      # the tree this script lives in (so that it can run from a snapshot)
+out=$VERIF/seeded/RESULTS.md
 echo "| property | seeded change | patch applies | quick check | verdict lines |" > $out
 echo "|---|---|---|---|---|" >> $out
 cd /repo || exit 2
 if ! git diff --quiet; then echo "/repo has local changes; refusing"; exit 2; fi
-for d in /verif/seeded/C*/*/; do
+for d in $VERIF/seeded/C*/*/; do
   cid=$(basename $(dirname $d)); name=$(basename $d)
   if ! git -C /repo apply --check "$d/patch.diff" 2>/dev/null; then echo "| $cid | $name | no | - | - |" >> $out; continue; fi
   git -C /repo apply "$d/patch.diff"
-  res=$(cd /verif && PYTHONPATH=/repo/src PYTHONHASHSEED=0 timeout 3000 /venv/bin/python harness/check.py $cid --tier quick 2>&1 | grep -E "VIOLATION|^C[0-9]+ ")
+  res=$(cd $VERIF && PYTHONPATH=/repo/src PYTHONHASHSEED=0 timeout 3000 /venv/bin/python harness/check.py $cid --tier quick 2>&1 | grep -E "VIOLATION|^C[0-9]+ ")
   git -C /repo checkout -- .
   nv=$(echo "$res" | grep -c VIOLATION)
   nf=$(echo "$res" | grep -c "no-failing-input-found")
   summary=$(echo "$res" | grep -E "^C[0-9]+ " | sed 's/|/ /g' | cut -c1-150)
   if [ "$nv" -gt 0 ]; then v="DETECTED ($nv violation line(s)$( [ $nf -gt 0 ] && echo ', no-failing-input-found'))"; else v="missed"; fi
   echo "| $cid | $name | yes | $v | $summary |" >> $out
+  echo "ROW | $cid | $name | yes | $v | $summary |"
 done
 echo done
